@@ -5,6 +5,7 @@ then the same case family is enumerated here, each case is concretised as real v
 both record readers (compiled and pure Python); TLC judges every recorded outcome."""
 from __future__ import annotations
 
+import os
 import itertools
 import multiprocessing as mp
 import random
@@ -116,7 +117,7 @@ def _replay_chunk(cases):
 
 def run(rep: Report, ctx):
     L = 3 if ctx.quick else 4
-    cfg = tlc.SPEC / "_gen_iso.cfg"
+    cfg = tlc.SPEC / f"_gen_iso_{os.getpid()}.cfg"
     cfg.write_text(f"""SPECIFICATION Spec
 CONSTANTS
   MaxLen = {L + 1 if ctx.quick else L}
